@@ -4,6 +4,7 @@ which case carries `h *= m`, the native dispatch, and the seed every tool uses."
 import os
 import re
 from .cparse import strip_comments
+from .fallback import with_fallback
 
 NUM = r"((?:0[xX][0-9a-fA-F]+|\d+)(?:ULL|ull|UL|ul|U|u|LL|ll|L|l)?)"
 
@@ -49,7 +50,27 @@ def strip_arm(src):
     return "\n".join(out)
 
 
+REGION_FILES = [("util", "murmur_hash.cc"), ("util", "murmur_hash.hh"), ("preprocess", "fields.hh"), ("preprocess", "shard_main.cc"),
+                ("preprocess", "dedupe_main.cc"), ("preprocess", "cache_main.cc"), ("preprocess", "subtract_lines_main.cc"),
+                ("preprocess", "commoncrawl_dedupe_main.cc"), ("preprocess", "train_case_main.cc"), ("preprocess", "apply_case_main.cc"),
+                ("preprocess", "mmhsum_main.cc"), ("preprocess", "order_independent_hash_main.cc")]
+
+
 def generate(repo):
+    regions = []
+    for f in REGION_FILES:
+        t = read(repo, *f)
+        if f[1] == "murmur_hash.cc":
+            t = strip_arm(t)
+            t = t[t.index("uint64_t MurmurHash64A"):t.index("uint64_t MurmurHash64B")] + t[t.index("namespace {"):]
+        elif f[0] == "preprocess":
+            # only the lines that hash
+            t = "\n".join(l for l in t.split("\n") if "Murmur" in l or "HashCallback" in l or "hash" in l.lower())
+        regions.append(t)
+    return "Src_murmur.v", with_fallback("Src_murmur.v", regions, lambda: strict(repo)[1])
+
+
+def strict(repo):
     src = strip_arm(read(repo, "util", "murmur_hash.cc"))
     i = src.index("uint64_t MurmurHash64A")
     j = src.index("uint64_t MurmurHash64B")
